@@ -204,11 +204,42 @@ def w_counter(ctx, rng, i):
     ctx.case(("cnt", n, k == 0, k == n), sample=dict(n=n, k=k) if i < 3 else None)
 
 
+def w_two_grids(ctx, rng, i):
+    """the same bits, slot rate, detector bandwidth (in Hz) and link parameters on a sequence of sampling grids within one process."""
+    R = float(rng.choice([1e9, 1e10]))
+    seq = [int(v) for v in rng.choice([4, 5, 8, 16, 32, 64], 3, replace=False)]
+    seq = [max(seq), min(seq), seq[[k for k in range(3) if seq[k] not in (max(seq), min(seq))][0]]] if i % 2 else seq
+    bits = pattern(rng, ["random", "prbs"][i % 2], 64)
+    shape = ["nrz", "gaussian"][int(rng.integers(2))]
+    Vpi, Pw, r_, R_load = float(rng.uniform(1, 10)), float(10 ** rng.uniform(-4, -2)), float(rng.uniform(0.2, 1)), float(rng.choice([50, 1e3]))
+    BW = float(rng.choice([0.7, 0.75, 1.0, 1.5])) * R
+    use_dsp = bool(i % 3 == 0)
+    ctx.describe(R=R, sps_sequence=seq, shape=shape, BW_over_R=BW / R, Vpi=Vpi, P=Pw, use_ook_dsp=use_dsp, bits=bits)
+    for sps in seq:
+        with core.quiet():
+            T.gv(sps=sps, R=R)
+            v = D.DAC(bits, bias=0.0, Vout=Vpi, pulse_shape=shape)
+            cw = T.optical_signal(np.full(v.len(), np.sqrt(Pw), complex))
+            y = D.PD(D.MZM(cw, v, bias=-Vpi, Vpi=Vpi, ER_dB=20.0), min(BW, 0.49 * R * sps), r_, 300.0, R_load, "ase-only", 0.0)
+            s = D.SAMPLER(y, sps // 2)
+            tot = s.signal + s.noise
+            dec = (tot > (tot.max() + tot.min()) / 2).astype(int)
+            nerr = int(np.sum(dec != bits))
+            ctx.check("link.bits", nerr == 0, f"noise-free link returned {nerr} wrong bits of 64 at sps={sps} after the grid sequence {seq} (same BW={BW:.3g} Hz)")
+            if use_dsp:
+                np.random.seed(1)
+                rx, _, _ = O.DSP(y)
+                ne2 = int(np.sum(rx.data[:64] != bits[: rx.len()])) + abs(rx.len() - 64)
+                ctx.check("ook.dsp", ne2 == 0, f"ook.DSP returned {ne2} wrong bits at sps={sps} after the grid sequence {seq}")
+    ctx.case(("grids", tuple(seq), shape, BW / R, use_dsp), sample=dict(R=R, sps_sequence=seq, shape=shape, BW_over_R=BW / R) if i < 2 else None)
+
+
 WORKLOADS = [
     Workload("link", w_link, 2160, 40000, budget=120),
     Workload("ook_dsp", w_ook_dsp, 600, 6000, budget=120),
     Workload("ppm_dsp", w_ppm_dsp, 160, 4000, budget=120),
     Workload("counter", w_counter, 200, 3000),
+    Workload("two_grids", w_two_grids, 90, 3000, budget=120),
 ]
 
 
